@@ -39,6 +39,9 @@ CHECKS = {
  "C11": dict(cat="model_checking", design="3/C11", technique="paired executions judged by a TLA+ acceptor (Equiv.tla): the same PrecipitateModel configuration with phases listed in two orders (and thermodynamic queries / diffusion runs with solutes in two orders), compared item by item after un-permuting",
              text="Every history, the time grid and the final size distributions of 2- and 3-phase runs (each step-size limit made binding in turn, both iterators, two solve calls) must be equal after un-permuting the phase axis; Equiv.tla accepts a pair only if every comparison is eq.",
              note="scripted thermodynamics for the phase-order part; rtol 1e-9 because sums over phases are re-associated"),
+ "C17": dict(cat="model_checking", design="3/C17", technique="TLA+ transcription of the averaging rules and by-name post-processing (Homogenization.tla): bounds/ordering/permutation invariance model-checked exhaustively by TLC on a lattice; rule functions and computeHomogenizationFunction (scripted equilibrium) bound by TLC-evaluated exact values",
+             text="The classical ordering and bounds, labyrinth relations, single-phase identity and permutation invariance are invariants over every mobility table x fraction vector of the lattice for 1-4 phases; the real rule functions must equal the exact values (also with undefined entries) and computeHomogenizationFunction must equal a fresh by-name evaluation for every post-process mode, stable-phase order/subset, repeated evaluation and option change with the cache on or off.",
+             note="mobilities < 1/3; scripted equilibrium object; rtol 1e-9"),
 }
 
 NOT_APPLICABLE = {
